@@ -686,6 +686,7 @@ def run_s11_s12(chk, repo):
     run_theta_sentinels(chk, repo, 'S14')
     run_s15(chk, repo)
     run_s16(chk, repo)
+    run_s17(chk, repo)
 
 
 def run_s13(chk, repo):
@@ -819,3 +820,37 @@ def run_s16(chk, repo):
                                       'statement V deletes the IF block and keeps the old V line after the new one')
     if n < 3:
         raise AnalysisError(f'S16: only {n} index entries found in _parse_tree')
+
+
+def run_s17(chk, repo):
+    """S17: like S6, for the $ABBR records: the updater may drop records of the control stream only when what they express
+    changed. update_abbr_record is called on every update_source(); a replace_all(<kind>, <filtered subset>) that no test
+    against the old state guards removes records of an unmodified model"""
+    from sa.cfg import CFG
+    S17 = chk.rule('S17', 'update_abbr_record: records are dropped from the control stream (replace_all with a filtered list) only '
+                          'under a test that the names they define changed', floor=1)
+    um = repo.module(f'{NM}.update')
+    f = um.functions.get('update_abbr_record')
+    if f is None:
+        raise AnalysisError('S17: update_abbr_record not found')
+    cfg = CFG(f.node)
+    n = 0
+    for nd in cfg.nodes.values():
+        if nd.ast is None or nd.kind != 'stmt':
+            continue
+        for c in [c for c in ast.walk(nd.ast) if isinstance(c, ast.Call) and isinstance(c.func, ast.Attribute)
+                  and c.func.attr in ('replace_all', 'remove_records') and c.args]:
+            n += 1
+            guards = [t for t in cfg.nodes.values() if t.kind == 'test' and (
+                cfg.edge_dominates(t.id, 'true', nd.id) or cfg.edge_dominates(t.id, 'false', nd.id))
+                and ('old_' in unparse(t.ast) or 'rv_trans' in unparse(t.ast))]
+            chk.instance(S17, f'update_abbr_record: {unparse(c)[:60]} guarded by {[g.text()[:40] for g in guards]}')
+            if not guards:
+                chk.violation(S17, um.rel, f.qualname, unparse(c)[:80],
+                              'the $ABBR records are filtered and replaced on every update, also when nothing changed: REPLACE '
+                              'records of thetas are dropped, those of etas are re-created under other names, while the code '
+                              'that uses them is kept', line=c.lineno,
+                              witness='$ABBR REPLACE THETA(CL)=THETA(1) and CL = THETA(CL)*EXP(ETA(CL)): model.update_source() '
+                                      'writes a control stream without the THETA(CL) abbreviation')
+    if n == 0:
+        raise AnalysisError('S17: no record replacement found in update_abbr_record')
